@@ -1,4 +1,5 @@
 import Mathlib.Algebra.BigOperators.Group.List.Basic
+import Mathlib.Algebra.Group.TypeTags.Basic
 import QV.Model.CircuitOps
 /-!
 # Lemmas about the circuit composition operators (C14)
@@ -761,5 +762,35 @@ theorem riLoop_none_ok : ∀ (fuel : Nat) (l res : List HGate), ∃ r, riLoop Qu
 
 theorem erase_shift (c : Circ) (k : Nat) : (c.shift k).erase = c.erase := by
   simp [Circ.erase, Circ.shift, HGate.erase, HGate.shift, Function.comp_def]
+
+/-! ## vocabulary of the property statements -/
+
+/-- laws `remove_identities` relies on: the classes it may cancel square to 1, barriers are 1 -/
+structure CancelLaws {M : Type} [Monoid M] (sem : Sem M) : Prop where
+  sq : ∀ c p w, selfInverse c = true → sem c p w * sem c p w = 1
+  barrier : ∀ p w, sem .Barrier p w = 1
+
+/-- one gate object has one class (true of every Python heap) -/
+def GidFun (c : Circ) : Prop := ∀ g ∈ c.gates, ∀ h ∈ c.gates, g.g.gid = h.g.gid → g.g.cls = h.g.cls
+
+instance (c : Circ) : Decidable (GidFun c) := by unfold GidFun; infer_instance
+
+/-- a write through any object of `r` is invisible in `c`, and vice versa -/
+def Independent (r c : Circ) : Prop :=
+  (∀ o ∈ r.objs, o ∉ c.objs) ∧ (∀ w : Write, w.target ∈ r.objs → c.apply w = c) ∧
+    (∀ w : Write, w.target ∈ c.objs → r.apply w = r)
+
+theorem independent_of_fresh {r c : Circ} {nx : Nat} (hc : c.below nx) (hr : r.objsFrom nx) :
+    Independent r c := by
+  have hd := objsFrom_disjoint hc hr
+  refine ⟨hd, fun w hw => apply_frame w c (hd _ hw), fun w hw => apply_frame w r (fun h => hd _ h hw)⟩
+
+/-- counts the gates / the S gates: two honest monoid-valued semantics -/
+def countAll : Sem (Multiplicative Nat) := fun _ _ _ => Multiplicative.ofAdd 1
+def countS : Sem (Multiplicative Nat) := fun c _ _ => if c = .S then Multiplicative.ofAdd 1 else 1
+
+theorem countS_laws : CancelLaws countS :=
+  ⟨fun c p w h => by cases c <;> simp_all [countS, selfInverse], fun _ _ => rfl⟩
+
 
 end QV.CircuitOps
